@@ -26,8 +26,8 @@ RULE = ('corpus; random pairwise dictionaries over 3..6 candidates (Kemeny <= 5)
         'non-trivial = no Condorcet winner or a pairwise tie or a missing reverse pair; distinct by case hash')
 PARTIAL = ['Benham: Smith containment is a theorem for the repaired elimination step only (C05_smith_benham, fx = true); for the step as '
            'written on the pinned tree it is refuted (C05_smith_benham_refuted, known finding C05-hybrid-elimination-tie)',
-           'hybrids: that the fuel of the elimination loops always suffices is not proved (the theorems speak about H_ok results; '
-           'an out-of-fuel answer of the model would show as a deviation)']
+           'hybrids: IndexError on a profile whose pairwise dictionary is empty (single candidate; known finding C05-hybrid-empty-pairwise); '
+           'the Smith theorem for Benham assumes a non-empty dictionary']
 TRUSTED = []
 METHODS = ['rankedpairs_winvotes', 'rankedpairs_margins', 'rankedpairs_pwo', 'copeland_2o', 'copeland_raw', 'schulze',
            'kemeny_young', 'minimax_winvotes', 'minimax_margins', 'minimax_pwo']
